@@ -24,12 +24,12 @@ TRUSTED_BASE = [
 PROPS = {
     "C01": dict(
         level_text='FULL at scrollback offset 0, PARTIAL for scrolled views: C01_reachable_bytes (Props/C01.v) — for EVERY screen reached from Parser::new by any history of process/write/set_size/set_scrollback calls (offset 0), every fresh parser of its size processing the BYTES of state_formatted() ends with no panic, no callback event, a ground vte state and obs = obs S (all visible cells incl. wide/continuation/attributes, every wrap flag, cursor incl. the pending-wrap column, hide, pen, five input modes), and re-emits byte-identical output (C01_reachable_obs, C01_idem_strong); C01_dirty: contents_formatted alone on any receiver previously fed full redraws (canvas); supporting invariants proved for every history: cell_cap (C01_cap_invariant; C01_cap_needed shows it is necessary), last live row never flagged (C01_last_row_invariant), screen_wrapinv (C01w_*), tokens re-parse exactly (C01tok_*). Scrolled views of uniform width: C01_fresh with the bottom-row-flag exemption the property grants (same_obs_minus); views mixing row widths after a resize are outside the theorem and carried by the differential correspondence of the emitted bytes plus the oracle.',
-        families=[("emit", 1200, 40000), ("stream", 600, 20000), ("sb", 300, 8000), ("cursorfix", 800, 20000), ("wrapdiff", 500, 20000)],
+        families=[("emit", 1200, 40000), ("stream", 600, 20000), ("sb", 300, 8000), ("cursorfix", 800, 20000), ("wrapdiff", 500, 20000), ("pen", 200, 4000)],
         projection="contents_formatted / state_formatted bytes (Emit.contents_formatted_t, state_formatted_t) and the screen state they are computed from",
     ),
     "C02": dict(
         level_text='FULL at scrollback offset 0 (after repairing defect D10, fix 99d8cec): the statement is the executable byte-level round trip DiffRound.diff_round_ok (fresh parser, bytes of state_formatted(P), bytes of state_diff(S,P), obs compared). C02sem_all (Props/C02all.v; DiffPaint, DiffGrid, DiffMain, DiffWrap, DiffK10, DiffRoundAll on the C01 receiver infrastructure): for ALL reachable P, S of equal size at offset 0, diff_round_ok P S, with no callback event, a ground parser and a canvas receiver (C02sem_all_strong); C02sem_all_chain: one receiver fed diff(S1,S0), diff(S2,S1), ... stays equal to the latest snapshot for every chain of reachable same-size snapshots. History of the defect kept as theorems: C02_old_loop_refuted (the loop as it was before the fix fails on the D10 pair, DiffHistory.v), C02sem_K (the old loop was correct exactly outside the executable class k10: a row soft-wrapped in both screens with a wide character at column cols-2 in P where S has no contents, and an unchanged first cell in the next row), C02_d10_repaired / C02all_d10 (the witness now round-trips). Before proving, the byte-level round trip was evaluated by vm_compute on 50 250 929 ordered pairs of small screens with wrapped rows: 374 454 failed on the old loop (exactly the k10 pairs, only wrap flags), 0 fail on the repaired loop. C02_total / C02_bytes: for all reachable pairs the diff emitters succeed and every token re-parses. Scrolled views (offset > 0) are outside the theorem and carried by the differential correspondence of the diff bytes plus the oracle.',
-        families=[("emit", 1500, 60000), ("wrapdiff", 1500, 40000), ("cursorfix", 500, 10000), ("modes", 300, 4000)],
+        families=[("emit", 1500, 60000), ("wrapdiff", 1500, 40000), ("cursorfix", 500, 10000), ("modes", 300, 4000), ("pen", 200, 4000)],
         projection="contents_diff / state_diff bytes (Emit.contents_diff_t, state_diff_t) against snapshots",
     ),
     "C03": dict(
@@ -114,7 +114,7 @@ PROPS = {
     ),
     "C19": dict(
         level_text='FULL: observation record, all formatted emitters factor through it (no offset-0 hypothesis needed), self/obs-equal diffs empty, concatenation laws; CellBytes refinement shows stale bytes are unobservable.',
-        families=[("emit", 1500, 50000), ("cursorfix", 1000, 20000), ("wrapdiff", 500, 10000)],
+        families=[("emit", 1500, 50000), ("cursorfix", 1000, 20000), ("wrapdiff", 500, 10000), ("pen", 400, 8000)],
         projection="all emitters as functions of the observable state",
     ),
 }
